@@ -21,10 +21,16 @@ func Spans(sdl []tracesdk.ReadOnlySpan) []*tracepb.ResourceSpans {
 		return nil
 	}
 
-	rsm := make(map[attribute.Distinct]*tracepb.ResourceSpans)
+	// A resource is its attributes and its schema URL: resources with equal
+	// attributes but different schema URLs must not share a ResourceSpans.
+	type resKey struct {
+		attrs     attribute.Distinct
+		schemaURL string
+	}
+	rsm := make(map[resKey]*tracepb.ResourceSpans)
 
 	type key struct {
-		r  attribute.Distinct
+		r  resKey
 		is instrumentation.Scope
 	}
 	ssm := make(map[key]*tracepb.ScopeSpans)
@@ -35,7 +41,10 @@ func Spans(sdl []tracesdk.ReadOnlySpan) []*tracepb.ResourceSpans {
 			continue
 		}
 
-		rKey := sd.Resource().Equivalent()
+		rKey := resKey{
+			attrs:     sd.Resource().Equivalent(),
+			schemaURL: sd.Resource().SchemaURL(),
+		}
 		k := key{
 			r:  rKey,
 			is: sd.InstrumentationScope(),
